@@ -400,6 +400,14 @@ CORPUS.append(
      ["r", "SI0", 0, 0, 2], ["e", "SI0", "L0", "L2"]])
 
 
+# completion detection (seed C22-d): strictly back-to-front and tail-first chunk orders — the share is complete, and
+# becomes readable, only when the first byte arrives; reads before that find no share
+CORPUS.append(
+    [["c", "SI0", [0, 1], 6, "aa", "L0", "L1"], ["w", "SI0", 0, "aa", 4, "0405"], ["r", "SI0", 0, 0, 6], ["l", "SI0"],
+     ["w", "SI0", 0, "aa", 2, "0203"], ["w", "SI0", 0, "aa", 1, "01"], ["r", "SI0", 0, 4, 2], ["w", "SI0", 0, "aa", 0, "00"],
+     ["r", "SI0", 0, 0, 6], ["w", "SI0", 1, "aa", 1, "0102030405"], ["l", "SI0"], ["w", "SI0", 1, "aa", 0, "00"], ["l", "SI0"]])
+
+
 def instantiate(corpus_hist, rng):
     from allmydata.storage.common import si_b2a
     names = {"SI0": si_b2a(rbytes(rng, 16)).decode(), "SI1": si_b2a(rbytes(rng, 16)).decode(),
